@@ -21,7 +21,8 @@ func NewTrie() *Trie {
 
 func (t *Trie) Insert(word string) {
 	node := t.root
-	for _, ch := range word {
+	for i := 0; i < len(word); i++ {
+		ch := rune(word[i]) // per byte, not per rune: keys are binary and every invalid UTF-8 byte ranges as U+FFFD
 		if node.children[ch] == nil {
 			node.children[ch] = &TrieNode{
 				children: make(map[rune]*TrieNode),
@@ -35,7 +36,8 @@ func (t *Trie) Insert(word string) {
 
 func (t *Trie) IsPrefixMatch(word string) bool {
 	node := t.root
-	for _, ch := range word {
+	for i := 0; i < len(word); i++ {
+		ch := rune(word[i]) // per byte, not per rune: keys are binary and every invalid UTF-8 byte ranges as U+FFFD
 		node = node.children[ch]
 		if node == nil {
 			return false
@@ -49,7 +51,8 @@ func (t *Trie) IsPrefixMatch(word string) bool {
 
 func (t *Trie) Search(word string) bool {
 	node := t.root
-	for _, ch := range word {
+	for i := 0; i < len(word); i++ {
+		ch := rune(word[i]) // per byte, not per rune: keys are binary and every invalid UTF-8 byte ranges as U+FFFD
 		node = node.children[ch]
 		if node == nil {
 			return false
